@@ -366,6 +366,11 @@ func runB(raw json.RawMessage) *core.Violation {
 		return core.V("service|state-changed|"+what+"|"+followKindsS(c.Follow), "before the service password was presented (%s) follow-ups %v changed the teamserver's %s: %s", c.Cls, c.Follow, what, d)
 	}
 	if op != nil {
+		// probe: the operator who was online is still served, and saw nothing before the probe
+		ts.AgentConsole("0badc0de", 0x80, map[string]string{"Type": "Info", "Message": "probe"})
+		if v := op.Expect("operator (probe after the refused service handshake)", []string{"out/0badc0de/probe"}, "service|bystander"); v != nil {
+			return v
+		}
 		if extra := op.Pending(); len(extra) > 0 {
 			ps, _ := projAll(extra)
 			return core.V("service|event-emitted|"+followKindsS(c.Follow), "the operator received %v caused by an unauthenticated service socket (%s, follow-ups %v)", clip(ps), c.Cls, c.Follow)
